@@ -38,6 +38,19 @@ RecFixed(metric, X, Y, mx, my, den, tn, td) ==
      IF mx[i] = 0 /\ my[j] = 0 /\ Below(metric, Dist(metric, X[i], Y[j]), den, tn, td)
      THEN 1 ELSE 0]]
 Zeros(n) == [k \in 1..n |-> 0]
+\* threshold in units of the standard deviation of the (scalar) series s: eps = (tn/td) sigma with
+\* sigma^2 = V / n^2, V = n sum s^2 - (sum s)^2.  d < eps  <=>  d^2 td^2 n^2 < tn^2 V  (d, eps >= 0).
+\* Returns 1 / 0, and 2 where d = eps exactly (the floating-point comparison may go either way).
+VarN2(s) == Len(s) * SumN(LAMBDA t : s[t] * s[t], 1, Len(s)) - SumN(LAMBDA t : s[t], 1, Len(s)) * SumN(LAMBDA t : s[t], 1, Len(s))
+RecStd(metric, X, s, tn, td) ==
+  LET n == Len(s)  V == VarN2(s) IN
+  [i \in 1..Len(X) |-> [j \in 1..Len(X) |->
+     LET d == Dist(metric, X[i], X[j])
+         lhs == (IF metric = "euclidean" THEN d ELSE d * d) * td * td * n * n
+         rhs == tn * tn * V
+     IN IF lhs < rhs THEN 1 ELSE IF lhs = rhs /\ rhs > 0 THEN 2 ELSE 0]]
+AgreesUpToTies(R, E) == /\ Len(R) = Len(E)
+                        /\ \A a \in 1..Len(E) : Len(R[a]) = Len(E[a]) /\ \A b \in 1..Len(E[a]) : E[a][b] = 2 \/ R[a][b] = E[a][b]
 
 \* k-th order statistic (k counted from 0) of a finite family of numbers D over index
 \* set I: v with  #{< v} <= k < #{<= v};  "x is below the k-th order statistic"  <=>
